@@ -485,7 +485,11 @@ impl Transport for MmioTransport<'_> {
     }
 
     fn read_config_generation(&self) -> u32 {
-        field_shared!(self.header, config_generation).read()
+        match self.version {
+            // The legacy interface has no config generation register.
+            MmioVersion::Legacy => 0,
+            MmioVersion::Modern => field_shared!(self.header, config_generation).read(),
+        }
     }
 
     fn read_config_space<T: FromBytes + IntoBytes>(&self, offset: usize) -> Result<T, Error> {
